@@ -41,3 +41,37 @@ fn token_keeps_duplicate_member()
     assert!(matches!(token.reactors[0], ReactorType::Broadcast(_)) && matches!(token.reactors[1], ReactorType::Broadcast(_)));
     kani::cover!(true, "end of harness reached");
 }
+
+/// diagnostic (not registered): cost of `Vec<ReactorType>::contains` (derived PartialEq over 11 variants on heap data)
+#[kani::proof]
+#[kani::stub(core::any::TypeId::of, crate::vh::stub_typeid_of)]
+#[kani::stub(<core::any::TypeId as crate::vh::PEq>::eq, crate::vh::stub_typeid_eq)]
+#[kani::unwind(4)]
+fn diag_reactor_type_contains()
+{
+    let mut v: Vec<ReactorType> = Vec::with_capacity(2);
+    v.push(ReactorType::Broadcast(TypeId::of::<Ta>()));
+    let b = ReactorType::Broadcast(TypeId::of::<Ta>());
+    assert!(v.contains(&b));
+    let c = ReactorType::ResourceMutation(TypeId::of::<Tr>());
+    assert!(!v.contains(&c));
+    kani::cover!(true, "end");
+}
+
+/// C06 / C15: `get_reactor_types` (what a token is built from) lists one entry per bundle member, repeated triggers
+/// included, in order - decided on the function itself, without the `Arc<[..]>` the token wraps it in.
+#[kani::proof]
+#[kani::stub(core::any::TypeId::of, crate::vh::stub_typeid_of)]
+#[kani::stub(<core::any::TypeId as crate::vh::PEq>::eq, crate::vh::stub_typeid_eq)]
+#[kani::unwind(5)]
+fn reactor_types_keep_duplicates()
+{
+    let e = ent(7);
+    let v = get_reactor_types((broadcast::<Ta>(), resource_mutation::<Tr>(), broadcast::<Ta>()));
+    assert!(v.len() == 3, "C06/C15: one entry per bundle member - a repeated trigger is registered twice, so it must be listed twice");
+    assert!(matches!(v[0], ReactorType::Broadcast(_)) && matches!(v[1], ReactorType::ResourceMutation(_)) && matches!(v[2], ReactorType::Broadcast(_)), "in bundle order");
+    let w = get_reactor_types((despawn(e), despawn(e)));
+    assert!(w.len() == 2, "C06/C15: also for entity-keyed triggers");
+    kani::cover!(true, "end of harness reached");
+    std::mem::forget(v); std::mem::forget(w);
+}
